@@ -1,6 +1,20 @@
 (** CC_TSTTable, part 1: keys, lookup, the direct (structurally recursive) forms of insertion and
     removal, their agreement with the pointer-level (path) operations of the model, and the
-    lookup characterisations. *)
+    lookup characterisations.
+
+    Map of the development: TstProofs1 (this file) tree level; TstProofs2 ledger, table invariant,
+    step / history refinement, C06 C08 C16 corollaries; TstProofs3 iterator automaton and enumeration;
+    TstProofs4 iter_remove (incl. validity of the advanced iterator on the pruned tree), C14 tags.
+
+    Not covered by theorems (by design, stated here so that nothing is weakened silently):
+    * the empty key (D30): every refinement theorem is for [wf_key] keys (non-empty, bytes < 256);
+      [tst_empty_key_refuted] is the witness that the full statement fails;
+    * sizes: [t_size s + 1 < W] is a premise of add (2^64 - 1 keys cannot be reached in practice);
+    * iterator misuse (iter_remove twice without a next, mutation through the table API while an
+      iterator is live): outside the library's contract; the model answers with what the C text does
+      when that is defined and both executables skip such calls;
+    * the search-tree ordering of sibling nodes is not part of the invariant: it is not needed, the
+      invariant carries instead "every stored entry is found under its own key" ([sound]). *)
 From CC Require Import Base.Prelude Base.ListMem Base.Alloc Base.AllocProofs Generated.Status Tst.TstModel.
 From Coq Require Import Permutation.
 Local Open Scope N_scope.
